@@ -1,7 +1,7 @@
 // C08 harness: the real Builder / Compiler / Assembler behind the line protocol of lean/Driver/C08.lean.
 //
 // A program is the lines between `begin <arch> <emitter> <encopts hex>` and `end`.
-//   arch    : x86 | x64 | a64            emitter : builder | compiler | asm
+//   arch    : x86 | x64 | a64            emitter : builder | compiler | asm | compilerfn (Compiler with `func` / `fret` / `endfunc`)
 // Emitter calls (all emitters):
 //   newlabel | newsection | opts <hex> | extra <sig>:<id> | icomment <tok> | inst <id> <o0> .. <o5>
 //   bind L<n> | align <mode> <n> | embed <hex> | data <typeid> <items> <repeat> <hex> | elabel L<n> <size>
@@ -174,6 +174,13 @@ struct Prog {
   std::map<BaseNode*, size_t> ord;
   std::vector<std::string> keep;   // inline comment strings must outlive the call
   std::vector<std::vector<uint8_t>> pools;
+  // emitter `compilerfn`: a Compiler with function nodes (physical registers only); no node-list dump, the code is compared with an
+  // Assembler that is given bind(func) + emit_prolog(frame) + the same calls + bind(exit) + emit_epilog(frame)
+  bool fn_mode = false;
+  BaseCompiler* cc = nullptr;
+  std::vector<std::string> fn_lines;
+  std::vector<FuncNode*> funcs;
+  uint32_t enc = 0;
 };
 
 static std::unique_ptr<Prog> P;
@@ -249,6 +256,23 @@ static void dump_code(std::vector<std::string>& out) {
   std::sort(rl.begin(), rl.end());
   for (auto& s : rl) out.push_back(s.substr(26));
   out.push_back("D unresolved " + std::to_string(c.unresolved_fixup_count()));
+}
+
+// The image after flatten + resolve_cross_section_fixups + relocate_to_base: what is finally executed / stored.
+// (Destroys the relocation state, so it is taken after `dump_code`.)
+static void dump_image(std::vector<std::string>& out) {
+  CodeHolder& c = P->code;
+  Error e = c.flatten();
+  if (e != Error::kOk) { out.push_back("I err flatten " + err_str(e)); return; }
+  e = c.resolve_cross_section_fixups();
+  if (e != Error::kOk) { out.push_back("I err resolve " + err_str(e)); return; }
+  e = c.relocate_to_base(0x10000000u);
+  // which record fails first depends on the order of the relocation records, and that order legitimately differs between a
+  // Builder (grouped by section) and an Assembler: only the fact that relocation fails is part of the image
+  if (e != Error::kOk) { out.push_back("I err relocate"); return; }
+  for (Section* s : c.sections())
+    out.push_back("I sec " + std::to_string(s->section_id()) + " @" + std::to_string(s->offset()) + " " +
+                  (s->buffer_size() ? vh::bytes_to_hex(s->data(), s->buffer_size()) : std::string("-")));
 }
 
 // ---------------------------------------------------------------------------------------------------------------
@@ -467,6 +491,15 @@ static void step(const std::string& line, std::vector<std::string>& out) {
     g_arch = arch;
     P->code.init(Environment(arch));
     bool a64 = arch == Arch::kAArch64;
+    P->enc = uint32_t(enc);
+    if (w[2] == "compilerfn") {
+      P->fn_mode = true;
+      if (a64) { auto* c = new a64::Compiler(); P->em.reset(c); P->cc = c; } else { auto* c = new x86::Compiler(); P->em.reset(c); P->cc = c; }
+      Error err = P->code.attach(P->em.get());
+      P->em->add_encoding_options(EncodingOptions(uint32_t(enc)));
+      out.push_back("R " + err_str(err));
+      return;
+    }
     if (w[2] == "asm") { P->is_asm = true; if (a64) P->em.reset(new a64::Assembler()); else P->em.reset(new x86::Assembler()); }
     else if (w[2] == "compiler") { if (a64) { auto* c = new a64::Compiler(); P->em.reset(c); P->bb = c; } else { auto* c = new x86::Compiler(); P->em.reset(c); P->bb = c; } }
     else { if (a64) { auto* c = new a64::Builder(); P->em.reset(c); P->bb = c; } else { auto* c = new x86::Builder(); P->em.reset(c); P->bb = c; } }
@@ -479,12 +512,69 @@ static void step(const std::string& line, std::vector<std::string>& out) {
   if (!P) { out.push_back("R pre"); return; }
   if (w[0] == "end") { P.reset(); out.push_back("R end"); return; }
 
+  if (P->fn_mode) {
+    if (w[0] == "finalize") {
+      Error e = P->em->finalize();
+      out.push_back("F " + err_str(e));
+      dump_code(out);
+      // the same program on an Assembler
+      Arch arch = g_arch;
+      uint32_t nlabels = uint32_t(P->code.label_count());
+      std::vector<std::string> lines = P->fn_lines;
+      std::vector<FuncNode*> funcs = P->funcs;
+      std::unique_ptr<Prog> keep = std::move(P);       // do_call works on the global program state
+      P.reset(new Prog());
+      P->code.init(Environment(arch));
+      P->is_asm = true;
+      if (arch == Arch::kAArch64) P->em.reset(new a64::Assembler()); else P->em.reset(new x86::Assembler());
+      P->code.attach(P->em.get());
+      P->em->add_encoding_options(EncodingOptions(keep->enc));
+      for (uint32_t i = 0; i < nlabels; i++) P->em->new_label();
+      Error first = Error::kOk;
+      size_t fi = 0;
+      FuncNode* curf = nullptr;
+      for (const std::string& l : lines) {
+        std::vector<std::string> v = vh::words(l);
+        Error err = Error::kOk;
+        if (v[0] == "newlabel") continue;
+        if (v[0] == "func") { curf = fi < funcs.size() ? funcs[fi++] : nullptr; if (curf) { err = P->em->bind(curf->label()); if (err == Error::kOk) err = P->em->emit_prolog(curf->frame()); } }
+        else if (v[0] == "fret") { }
+        else if (v[0] == "endfunc") { if (curf) { err = P->em->bind(curf->exit_label()); if (err == Error::kOk) err = P->em->emit_epilog(curf->frame()); } curf = nullptr; }
+        else { bool pre; std::string r = do_call(P->em.get(), v, pre); if (r.compare(0, 3, "err") == 0) { for (uint32_t i = 1; i < 200; i++) if (err_str(Error(i)) == r) { err = Error(i); break; } } }
+        if (err != Error::kOk) { first = err; break; }
+      }
+      std::vector<std::string> x;
+      x.push_back("F " + err_str(first));
+      dump_code(x);
+      for (auto& l : x) out.push_back("X " + l);
+      P = std::move(keep);
+      return;
+    }
+    P->fn_lines.push_back(line);
+    std::string r;
+    if (w[0] == "func") {
+      FuncNode* f = P->cc->add_func(FuncSignature::build<void>());
+      if (f) P->funcs.push_back(f);
+      r = f ? "ok" : "err func";
+    }
+    else if (w[0] == "fret") {
+      FuncRetNode* n = nullptr;
+      r = err_str(P->cc->add_func_ret_node(Out(n), Operand(), Operand()));
+    }
+    else if (w[0] == "endfunc") r = err_str(P->cc->end_func());
+    else if (is_edit(w[0])) r = "pre";
+    else { bool pre; r = do_call(P->em.get(), w, pre); }
+    out.push_back("R " + r);
+    return;
+  }
+
   if (P->is_asm) {
     bool cont = false;
     if (w[0][0] == '~') { cont = true; w[0] = w[0].substr(1); }
     if (w[0] == "finalize") {
       out.push_back("F " + err_str(P->first_err));
       dump_code(out);
+      dump_image(out);
       return;
     }
     // label / section creation is not an emitter call that serialize_to replays: it happens whatever was refused before
@@ -516,6 +606,7 @@ static void step(const std::string& line, std::vector<std::string>& out) {
     Error e2 = P->em->finalize();
     out.push_back("F " + err_str(e2));
     dump_code(out);
+    dump_image(out);
     return;
   }
   std::string r;
